@@ -65,6 +65,12 @@ CHECKS = {
     "C13": ("exploration", "Hypothesis-generated operation histories over several live packets with per-packet expected trees, identity-disjointness and pack-purity invariants after every step; deterministic line-granular thread scheduler (sys.settrace) with generated schedules + pre-emptive stress",
             "Generated related classes (shared sub-packets, list/prototype/optional defaults, selector refs, regex delimiters kept and not kept) and histories of construct/unpack/assign/append/pack/drop; after each step every live packet must read as its own harness tree, its pack() must equal what was recorded after the last operation addressed to it, and no list/nested packet may be shared by identity. Thread part: 2-3 operations on distinct packets interleaved by a generated schedule at line granularity must give the solo results.",
             "Line-granular schedules only inside bisturi/generated modules; sub-line races only through the probabilistic stress variant.", "DESIGN.md section 5 C13"),
+    "C15": ("exploration", "Hypothesis-generated definition histories across forked processes (bytecode on/off, equalised clock) over a family of same-named classes sharing one cache file; behaviour vectors vs the reference model after every definition",
+            "Histories of up to 4 process segments x up to 4 definitions drawn from 21 variants (permuted widths with equal source length, sign/order/option flips, pack-only/unpack-only/off, unrelated shapes, descriptor-hook variants, a colliding module/class pair); after each definition every class defined so far in that process must behave per its own declaration.",
+            "Cache contents are only ever produced by bisturi itself; expected vectors come from bv/ir.py (hand-written for descriptor variants).", "DESIGN.md section 5 C15"),
+    "C16": ("fault_enumeration", "enumeration of every announced file-system step as a crash point (+ torn writes after k bytes) in a lock-stepped forked definer, then a fresh definer; Hypothesis-generated (thorough: enumerated coarse) two-definer interleavings; behaviour vectors as oracle",
+            "For 7 declaration pairs x {first definition, re-definition over another declaration's cache} x bytecode on/off: kill before every step, tear every write at stratified (thorough: all) byte counts, then a fresh process defines either declaration and must succeed and behave; two lock-stepped definers under generated schedules must both end with classes that behave per their own declarations.",
+            "Fault model: process death with a consistent file system and program-order writes; Python-level interposition. Power loss / NFS out of scope.", "DESIGN.md section 5 C16"),
 }
 
 NOT_YET = {}
